@@ -5232,7 +5232,8 @@ func (t *Terminal) Loop() error {
 			case actReplaceQuery:
 				current := t.currentItem()
 				if current != nil {
-					t.input = current.text.ToRunes()
+					// ToRunes may return the item's own storage: the query is edited in place
+					t.input = copySlice(current.text.ToRunes())
 					t.cx = len(t.input)
 				}
 			case actFatal:
